@@ -192,5 +192,23 @@ func RemoveAll(repo repository.ClockedRepo) error {
 			return err
 		}
 	}
+
+	// also remove what has been fetched from a remote without being merged locally
+	remotes, err := repo.GetRemotes()
+	if err != nil {
+		return err
+	}
+	for remote := range remotes {
+		refs, err := repo.ListRefs(fmt.Sprintf(identityRemoteRefPattern, remote))
+		if err != nil {
+			return err
+		}
+		for _, ref := range refs {
+			err = repo.RemoveRef(ref)
+			if err != nil {
+				return err
+			}
+		}
+	}
 	return nil
 }
